@@ -1,19 +1,23 @@
-/* C05 lift (builderV): one basic-rule stub per list position on top of env/ghost_rules.h.  Stub k asserts that exactly k elements of the
+/* C05 lift (builderV): one basic-rule stub per list position on top of env/ghost_rules.h.  The stub of position k asserts that exactly k (modulo C05L_NSTUB) elements of the
  * list under enforcement were evaluated before it (elements are taken in list order, each once) and counts itself; everything else
  * (arbitrary outcome, "no rule after a FAIL or an error", result slot reset) is stub_rule of env/ghost_rules.h.
  * ASSUMED: nothing about the rules - every (status, result code, error code) is possible. */
 #ifndef ENV_GHOST_RULES_LIFT_H
 #define ENV_GHOST_RULES_LIFT_H
 #include "env/ghost_rules.h"
+#ifndef C05L_NSTUB
+#define C05L_NSTUB 15         /* number of distinct stub functions; position k uses stub (k % C05L_NSTUB) */
+#endif
 unsigned long g_seq;          /* elements of the list under enforcement evaluated so far (basic: counted by the stub; composite: by the replaced contract) */
-static int stub_at(unsigned long k, KSI_VerificationContext *context, KSI_RuleVerificationResult *result) {
-	__CPROVER_assert(g_seq == k, "elements are evaluated in list order, each exactly once");
-	g_seq = k + 1;
+static int stub_at(unsigned long j, KSI_VerificationContext *context, KSI_RuleVerificationResult *result) {
+	__CPROVER_assert(g_seq % C05L_NSTUB == j, "elements are evaluated in list order, each exactly once (position of the element, modulo the number of stubs)");
+	g_seq = g_seq + 1;
 	return stub_rule(context, result);
 }
-#define C05L_STUB(k) static int stub_##k(KSI_VerificationContext *c, KSI_RuleVerificationResult *r) { return stub_at(k, c, r); }
+#define C05L_STUB(k) static int stub_##k(KSI_VerificationContext *c, KSI_RuleVerificationResult *r) { return stub_at(k % C05L_NSTUB, c, r); }
 C05L_STUB(0) C05L_STUB(1) C05L_STUB(2) C05L_STUB(3) C05L_STUB(4) C05L_STUB(5) C05L_STUB(6) C05L_STUB(7)
 C05L_STUB(8) C05L_STUB(9) C05L_STUB(10) C05L_STUB(11) C05L_STUB(12) C05L_STUB(13) C05L_STUB(14)
 typedef int (*c05l_verifier)(KSI_VerificationContext *, KSI_RuleVerificationResult *);
 static const c05l_verifier c05l_stub[15] = { stub_0, stub_1, stub_2, stub_3, stub_4, stub_5, stub_6, stub_7, stub_8, stub_9, stub_10, stub_11, stub_12, stub_13, stub_14 };
+#define C05L_STUB_AT(k) (c05l_stub[(k) % C05L_NSTUB])
 #endif
